@@ -43,5 +43,54 @@ PROPS["C02"] = dict(
                 "C<=3, K<=3 (5 thorough) over all first- and second-level ranges in [-2,K+2]^2 for all 13 types; extreme arguments sampled."),
     level_note="Trusts Alloc and Sample/SetSample to build and observe fixtures; panics are observed with recover().",
 )
+PROPS["C03"] = dict(
+    pkg="c03", idx=3,
+    rule=("Cases = element type x channels 1..8 x frame-aligned destination window [a,b) of a sentinel-filled root (spare capacity 0, "
+          "exact fit, one frame short, far too small, zero capacity) with a live sibling view over its spare region x 1-4 appends whose "
+          "source is the destination itself, a window of the same root that does not reach into the spare capacity, or a window of a "
+          "separate buffer. Oracle: contents = old ++ source, Len += source Len, Cap a whole number of frames >= Len, source unchanged; "
+          "in place: Cap unchanged, appended samples read through the sibling view, whole root equals the model; growth: every storage "
+          "the destination left is unchanged, also after stamping the destination's whole new capacity. Non-trivial: growth, in-place "
+          "append seen through another view, non-empty self-append, >=2 appends, exact fit, one frame short."),
+    quick=dict(rapid=dict(checks=40000, shards=2)),
+    thorough=dict(rapid=dict(checks=150000, shards=16), fuzz=dict(targets=["FuzzC03"], seconds=30)),
+    assumptions=COMMON_ASSUME,
+    technique="property-based testing (rapid) + bounded-exhaustive sweep against a plain-slice storage model with aliasing views and independence stamps",
+    level_text=("Generated-input search over destination/source shape combinations and repeated appends against a storage-graph model; "
+                "exhaustive for C<=3, roots <=3 (4) frames, all admissible sources and a second append, for 6 types; larger shapes sampled."),
+    level_note="Capacity after growth is read from the implementation and only constrained (>= Len, multiple of channels), as the property states; trusts Alloc/Slice/Sample to build and observe fixtures.",
+)
+PROPS["C04"] = dict(
+    pkg="c04", idx=4,
+    rule=("Cases = element type x channels x window [a,b) of a sentinel-filled root (a>0 common, spare capacity 0..many, zero capacity) x N "
+          "AppendSample calls with N below, at, one above and far beyond (3*cap+5) the spare capacity. Oracle: sequence model - while Len<Cap "
+          "the value lands at interleaved position Len (read back through the root alias, proving storage identity), Len+=1, Length=ceil(Len/C); "
+          "at Len==Cap nothing changes; Cap constant; whole root storage compared with the model (nothing outside the window's capacity written). "
+          "Non-trivial: N crosses the capacity, window starts at a later frame, zero capacity, or partial frames with >=2 channels."),
+    quick=dict(rapid=dict(checks=40000, shards=2)),
+    thorough=dict(rapid=dict(checks=150000, shards=16), fuzz=dict(targets=["FuzzC04"], seconds=30)),
+    assumptions=COMMON_ASSUME,
+    technique="property-based testing (rapid) + bounded-exhaustive sweep against a sequence model with whole-storage frame condition",
+    level_text=("Generated call sequences against a sequence model; exhaustive for all 13 types, C<=4, roots <=3 (5) frames, all windows, every call "
+                "count 0..spare+C+1 and far beyond capacity; larger shapes sampled."),
+    level_note="Trusts Alloc/Slice/Sample to build and observe fixtures.",
+)
+
+PROPS["C05"] = dict(
+    pkg="c05", idx=5,
+    rule=("Cases = one of the 169 conversion instantiations x channels x independent source and destination windows (unequal lengths both "
+          "ways, equal, empty, partial last frames, windows inside larger roots) x source values from the boundary-dense and random domains of the "
+          "source format (out-of-range floats, infinities; NaN only for floating-to-floating). Oracle: returned count = min of per-channel lengths; "
+          "source root, destination root outside the common prefix and all headers unchanged (whole-storage snapshots); result k equals the same "
+          "sample converted alone in a fresh 1-sample buffer (position-wise law); floating-to-floating additionally equals Go's conversion "
+          "bit for bit. Non-trivial: length mismatch, window source/destination, >=2 channels, partial frame, float beyond [-1,1]/non-finite."),
+    quick=dict(rapid=dict(checks=40000, shards=2)),
+    thorough=dict(rapid=dict(checks=250000, shards=16), fuzz=dict(targets=["FuzzC05"], seconds=45)),
+    assumptions=COMMON_ASSUME,
+    technique="property-based testing (rapid) + bounded-exhaustive shape sweep: whole-storage frame condition plus metamorphic single-sample re-conversion; direct oracle for float-to-float",
+    level_text=("Generated-input search over all 169 instantiations; exhaustive over all window pairs of roots <=2 (3) frames, C<=3, per instantiation; "
+                "values and larger shapes sampled. The numeric correctness of the point function is C06-C09's."),
+    level_note="The position-wise law compares two contexts of the same conversion; trusts Alloc/Slice/AppendSample/Sample to build fixtures.",
+)
 
 NOT_APPLICABLE = {}
